@@ -5,6 +5,7 @@ package aggh
 import (
 	"fmt"
 	"net"
+	"strings"
 	"time"
 
 	"github.com/vmware/go-ipfix/pkg/intermediate"
@@ -32,6 +33,10 @@ type XOp struct {
 	// second; "older" = a second earlier (a record overtaken on its way). The deadlines do not depend
 	// on it.
 	EndMode string `json:"end_mode,omitempty"`
+	// PodGen (rec) > 0: the reporting node names another Pod than before at its end of the connection
+	// (the Pod was replaced and got the same address; the port is in use again): "pod-src-<PodGen>".
+	// The record is still this node's record.
+	PodGen int `json:"pod_gen,omitempty"`
 }
 
 // XCase is a history against one aggregation process.
@@ -116,7 +121,7 @@ func RunX(c XCase, st *XStats) *ev.Failure {
 			default:
 				ends[k] = end
 			}
-			r := Rec{Flow: fi, Side: side, Start: 1000, End: end, Tot: [4]uint64{uint64(ends[k]), uint64(ends[k]) * 100, 1, 2}, Dlt: [4]uint64{1, 100, 1, 2}, Layout: c.LayoutS}
+			r := Rec{Flow: fi, Side: side, Start: 1000, End: end, Tot: [4]uint64{uint64(ends[k]), uint64(ends[k]) * 100, 1, 2}, Dlt: [4]uint64{1, 100, 1, 2}, Layout: c.LayoutS, PodGen: o.PodGen}
 			if side == "D" {
 				r.Layout = c.LayoutD
 			}
@@ -298,7 +303,7 @@ func checkCorrelation(ap *intermediate.AggregationProcess, f FlowDef, x *XFlow, 
 			}
 		case got == "":
 			return fmt.Sprintf("%s is empty although a node supplied %q", name, s+d)
-		case got != s && got != d:
+		case got != s && got != d && !(strings.HasSuffix(name, "PodName") && strings.HasPrefix(got, s+d+"-")):
 			return fmt.Sprintf("%s = %q, the nodes supplied %q / %q", name, got, s, d)
 		}
 		return ""
